@@ -462,7 +462,8 @@ class TrimWhitespaces(FullAstVisitor):
             if len(node.args.arguments) == 1 and not node.args.kwargs:
                 arg = node.args.arguments[0]
                 if isinstance(arg, mparser.ArrayNode):
-                    if not arg.lbracket.whitespaces or not arg.lbracket.whitespaces.value.strip():
+                    if (not arg.lbracket.whitespaces or not arg.lbracket.whitespaces.value.strip()) and \
+                            (not arg.rbracket.whitespaces or not arg.rbracket.whitespaces.value.strip()):
                         # files([...]) -> files(...)
                         node.args = arg.args
 
